@@ -105,7 +105,8 @@ func staleCert(w *sim.World, side *sim.Replica, blk *types.Block) *types.BlockCe
 	return w.MakeCertBy(side, blk, voters[:need])
 }
 
-var forkTypes = []types.TxType{types.SendTx, types.SendTx, types.OnlineStatusTx, types.OnlineStatusTx, types.DelegateTx, types.KillTx, types.InviteTx, types.ReplenishStakeTx, types.BurnTx, types.UndelegateTx, types.ChangeGodAddressTx}
+var forkTypes = []types.TxType{types.SendTx, types.SendTx, types.OnlineStatusTx, types.OnlineStatusTx, types.DelegateTx, types.DelegateTx, types.KillTx, types.KillTx, types.InviteTx, types.ReplenishStakeTx,
+	types.BurnTx, types.UndelegateTx, types.ChangeGodAddressTx, types.ChangeProfileTx, types.ChangeProfileTx, types.KillInviteeTx, types.KillDelegatorTx, types.ActivationTx, types.DeployContractTx, types.CallContractTx}
 
 // A fork is adopted only if valid and certified; adoption equals a clean sync.
 func TestForkAdoption(t *testing.T) {
